@@ -608,7 +608,12 @@ func parseHrdParameters(r *bits.EBSPReader,
 
 		if !hp.SubLayerHrd[i].LowDelayHrdFlag {
 			// value shall be in the range of 0 to 31, inclusive
-			hp.SubLayerHrd[i].CpbCntMinus1 = uint8(r.ReadExpGolomb())
+			cpbCntMinus1 := r.ReadExpGolomb()
+			if cpbCntMinus1 > 31 { // Must not be truncated to uint8, and sizes the tables below
+				r.SetError(fmt.Errorf("cpb_cnt_minus1 %d is not in range 0 to 31", cpbCntMinus1))
+				return hp
+			}
+			hp.SubLayerHrd[i].CpbCntMinus1 = uint8(cpbCntMinus1)
 		}
 		if hp.NalHrdParametersPresentFlag {
 			hp.SubLayerHrd[i].NalHrdParameters = parseSubLayerHrdParameters(r,
